@@ -1519,7 +1519,7 @@ impl HelperAttributeForDefault {
                     | Expr::ForLoop(_)
                     | Expr::Const(_)
                     | Expr::TryBlock(_)
-            )
+            ) || matches!(e, Expr::Macro(m) if matches!(m.mac.delimiter, syn::MacroDelimiter::Brace(_)))
         }
         fn starts_with_block_like(e: &Expr) -> bool {
             let mut cur = e;
